@@ -22,12 +22,12 @@ from .common import AssocModel, truthy_patterns, exception_class_name, link_op_c
 def run(ctx):
     repo = ctx.repo
     am = AssocModel(repo)
-    linkops(ctx)
-    atomic(ctx, am)
-    swap(ctx, am)
-    pair_and_kinds(ctx, am)
-    delete_rule(ctx)
-    ref_rule(ctx, am)
+    ctx.guard(linkops, ctx)
+    ctx.guard(atomic, ctx, am)
+    ctx.guard(swap, ctx, am)
+    ctx.guard(pair_and_kinds, ctx, am)
+    ctx.guard(delete_rule, ctx)
+    ctx.guard(ref_rule, ctx, am)
     ctx.assume('induction hypothesis for C02-ATOMIC/unrelate: the two directed links mirror each other '
                'before the call (established by C02-PAIR + C02-ATOMIC for every mutator)')
     ctx.assume('no code outside xtuml/ and bridgepoint/ mutates Link dictionaries directly')
@@ -58,6 +58,8 @@ def linkops(ctx):
         ('%s not in %s' % (B, slot), lambda e, s, tr: not s['pair']),
         ('self.many', lambda e, s, tr: s['many']),
         (C, lambda e, s, tr: s['check']),
+        ('self.get(%s)' % A, lambda e, s, tr: s['has'] and s['nonempty']),
+        ('self.get(%s, _D)' % A, lambda e, s, tr: s['has'] and s['nonempty']),
     ]
     for p in t:
         atoms.append((p, lambda e, s, tr: _need_has(s) and s['nonempty']))
@@ -79,7 +81,13 @@ def linkops(ctx):
         s['nonempty'] = True
         tr.append('add')
 
-    effects = [('%s = _V' % slot, init_slot), ('%s.add(%s)' % (slot, B), add)]
+    def setdefault(e, s, tr):
+        if not s['has']:
+            init_slot(e, s, tr)
+        return True
+
+    effects = [('%s = _V' % slot, init_slot), ('%s.add(%s)' % (slot, B), add), ('self.setdefault(%s, _V)' % A, setdefault),
+               ('self.setdefault(%s, _V).add(%s)' % (A, B), lambda e, s, tr: (setdefault(e, s, tr), add(e, s, tr)))]
     it = absint.Interp(fn, atoms, effects)
     n = 0
     for has, nonempty, pair, many, check in itertools.product([0, 1], repeat=5):
@@ -202,8 +210,8 @@ def _relate_table(ctx, r, am, qual, method, exc_name):
     # link-op call sites in source order
     sites = [n for n in ast.walk(fn) if link_op_call(n)]
     sites.sort(key=lambda n: (n.lineno, n.col_offset))
-    if len(sites) < 2:
-        raise AnalysisError('%s: %s contains fewer than two link operations' % (loc(fn), fn.name))
+    if len(sites) < 1:
+        raise AnalysisError('%s: %s contains no link operation' % (loc(fn), fn.name))
     if len(sites) > 6:
         raise AnalysisError('%s: too many link operations in %s' % (loc(fn), fn.name))
     index = {id(n): i for i, n in enumerate(sites)}
